@@ -110,7 +110,11 @@ func evalNmoveCase(c *vh.Ctx, nc *nmoveCase, prop string, cases, impl *[]string,
 				want += nc.Schnorr
 			}
 			if math.Abs(dP-want) > tol+1e-9*math.Abs(nc.Schnorr) {
-				c.Violate("search", "nmove:cropN-credit:first-substep", fmt.Sprintf("PESUM grows by %.9g, uptake + fixation is %.9g", dP, want), nc)
+				sig := "nmove:cropN-credit:first-substep"
+				if nc.NotSown {
+					sig += ":not-sown-yet" // SAAT = 0 (automatic sowing pending): no crop, the stale SCHNORR of the harvested crop must not be credited
+				}
+				c.Violate("search", sig, fmt.Sprintf("PESUM grows by %.9g, uptake + fixation is %.9g", dP, want), nc)
 			}
 		} else {
 			if dA != 0 {
